@@ -254,6 +254,43 @@ def check_foreign_receiver(acc, pendulum, x, b, case):
             acc.mismatch("foreign-receiver", "eq-hash", dict(case, foreign=lbl), [fx == nb, hash(fx) == hash(nb)], [True, True])
 
 
+def check_machine_zone(acc, pendulum, tzname, stamps):
+    import os
+    import time as time_
+    old = os.environ.get("TZ")
+    os.environ["TZ"] = tzname
+    time_.tzset()
+    try:
+        for ts in stamps:
+            case = {"kind": "mz", "tz": tzname, "ts": ts}
+            nf = obs.fields(dt_.datetime.fromtimestamp(ts))      # a local wall time of the machine's zone
+            pairs = [
+                ("Date.fromtimestamp", lambda: pendulum.Date.fromtimestamp(ts), lambda: dt_.date.fromtimestamp(ts)),
+                ("DateTime.fromtimestamp(utc).astimezone()", lambda: pendulum.DateTime.fromtimestamp(ts, dt_.timezone.utc).astimezone(),
+                 lambda: dt_.datetime.fromtimestamp(ts, dt_.timezone.utc).astimezone()),
+                # naive values read the machine's zone in timestamp() / astimezone() / utctimetuple()
+                ("naive.timestamp", lambda: pendulum.DateTime(*nf).timestamp(), lambda: dt_.datetime(*nf).timestamp()),
+                ("naive.astimezone(utc)", lambda: pendulum.DateTime(*nf).astimezone(dt_.timezone.utc),
+                 lambda: dt_.datetime(*nf).astimezone(dt_.timezone.utc)),
+                ("naive.astimezone()", lambda: pendulum.DateTime(*nf).astimezone(), lambda: dt_.datetime(*nf).astimezone()),
+            ]
+            # (DateTime.fromtimestamp(ts) without tz answers with an aware value in pendulum's own, cached, local
+            # timezone by design; it is not compared with the naive native result)
+            for name, fp, fn in pairs:
+                got, want = _try(fp), _try(fn)
+                acc.c["evaluations"] += 1
+                acc.c["transitions"] += 1
+                acc.c["states"] += 1
+                if got != want:
+                    acc.mismatch("machine-zone", name, dict(case, member=name), got, want)
+    finally:
+        if old is None:
+            os.environ.pop("TZ", None)
+        else:
+            os.environ["TZ"] = old
+        time_.tzset()
+
+
 def kf_fold_order(x, y, ix, iy, got, name):
     """C11-same-tzinfo-wall-order: two aware values sharing one tzinfo object are compared on their wall clock
     (stdlib intra-zone rule, inherited): where the wall-clock order differs from the order of the instants the
@@ -452,6 +489,10 @@ def run_shard(shard):
             acc.c["states"] += 1
             for n2 in ns:
                 check_date(acc, pendulum, n1, n2)
+    elif k == "machine-zone":
+        # the members that consult the MACHINE's zone (the harness otherwise pins TZ=UTC): fromtimestamp() without tz,
+        # Date.fromtimestamp(), today(), astimezone() without argument, naive timestamp()/utctimetuple()
+        check_machine_zone(acc, pendulum, shard["tz"], shard["stamps"])
     elif k == "times":
         us = shard["times"]
         for tzname in (None, "UTC", 19800):
@@ -465,7 +506,9 @@ def run_shard(shard):
 def replay_case(case, acc):
     import pendulum
     k = case["kind"]
-    if k == "state":
+    if k == "mz":
+        check_machine_zone(acc, pendulum, case["tz"], [case["ts"]])
+    elif k == "state":
         check_state(acc, pendulum, case["z"], case["inst"])
     elif k == "pair":
         check_pair(acc, pendulum, case["zx"], case["ix"], case["zy"], case["iy"])
@@ -488,6 +531,10 @@ def plan(tier, seed):
     times = sorted({0, 1, 999999, US, 59 * US + 999999, 3600 * US, 12 * 3600 * US, 86399 * US + 999999,
                     43200 * US + 500000, (seed * 7919) % 86400 * US})
     shards.append({"kind": "times", "left": times, "times": times})
+    stamps = [0, 1, -1, 3600 * 3, -3600 * 4, 86399, 951782400 + 79200, 1616893200 - 1, 1616893200, 1636264800 + 1800.25, 1700000000.5,
+              -2208988800 + 3600]
+    for tzn in ("America/New_York", "Asia/Tokyo", "Australia/Lord_Howe"):
+        shards.append({"kind": "machine-zone", "tz": tzn, "stamps": stamps})
     return [({"ext": 1, "tz": "sys"}, shards)]
 
 
